@@ -14,3 +14,4 @@ import GSV.Props.C08
 import GSV.Props.C05
 import GSV.Props.C06
 import GSV.Props.C07
+import GSV.Props.C11
